@@ -12,7 +12,7 @@ from cpverif.props import c02
 LEVEL = "exploration"
 RULE = (
     "complete enumeration of 8 built-in types x {empty allowed, not allowed} x length declarations {none, exact, "
-    "lower-only, upper-only, multi-item, multi-item open on both sides; fixed: two exact widths} x allowed-character ranges {none, 32...126, two-item "
+    "lower-only, upper-only, multi-item, multi-item open on both sides, zero, zero or three; fixed: two exact widths} x allowed-character ranges {none, 32...126, two-item "
     "digits+lower-case, open 33..., letters and digits as quoted characters, digits and quoted upper-case letters; set before or after the field is declared} x formats {delimited, fixed, excel, ods} x cells {empty, 1-3 blanks, shortest and "
     "longest allowed stem, one shorter / one longer, a stem with one disallowed character at every position, fixed: "
     "blank-padded stems, cells of / padded with tabs, no-break spaces, ideographic spaces and unit separators}; type rules are chosen so that the undisturbed stem satisfies them. A case is (declaration, "
@@ -25,7 +25,7 @@ ASSUMPTIONS = [
     "guard model of cpverif/models/fieldmodel.py; only the blank (U+0020) is padding of fixed cells",
 ]
 
-LENGTHS = ["", "3", "2...", "...4", "1...2, 4...5", "...2, 4..."]
+LENGTHS = ["", "3", "2...", "...4", "1...2, 4...5", "...2, 4...", "0, 3", "0"]
 FIXED_WIDTHS = ["3", "5"]
 ALLOWED = [None, "32...126", "48...57, 97...122", "33...", '"0"..."9", "A"..."Z", "a"..."z"', '"0"..."9", "A"..."Z"']
 DISALLOWED_CHAR = {None: None, "32...126": "é", "48...57, 97...122": "A", "33...": " ", '"0"..."9", "A"..."Z", "a"..."z"': "_", '"0"..."9", "A"..."Z"': "b"}
@@ -70,6 +70,8 @@ def lengths_inside(length_text, kind):
     items = R.parse_int_range(length_text)
     inside = [n for n in range(1, 8) if R.contains(items, n)]
     outside = [n for n in range(1, 8) if not R.contains(items, n)]
+    if not inside:
+        return [], [1, 2, 5]  # a length of 0: the field of a column that always has to be empty
     edge_in = sorted(set([inside[0], inside[-1]] + [n for n in inside if (n - 1) in outside or (n + 1) in outside]))
     edge_out = sorted(set(n for n in outside if (n - 1) in inside or (n + 1) in inside))
     return edge_in, edge_out
@@ -134,6 +136,10 @@ def run(ctx):
     for index, (type_name, empty, kind, length_text, allowed) in enumerate(declarations()):
         if not ctx.mine(index):
             continue
+        if length_text == "0" and type_name not in ("Text", "Pattern", "RegEx"):
+            continue  # (only types whose rule says nothing about the length of a value)
+        if length_text.startswith("0") and type_name == "Integer":
+            continue  # (an Integer field derives its range from the length: no digits, no range)
         rule, cells = cells_for(type_name, kind, length_text, allowed)
         if not usable(type_name, empty, rule):
             continue
